@@ -48,6 +48,21 @@ def r1_no_panic(ctx):
                     "crashes the connection task (or the server)" % (c.name, " -> ".join(prog.chain(cl, bid)[-4:])), c.loc())
     ctx.ok(rule, ["closure"], "closure scanned", None, sample={"entries": len(ents), "bodies_in_closure": len(cl), "panic_sites_in_closure": n})
     ctx.call_sites += sum(len(prog.bodies[b].calls) for b in cl)
+    # implicit panics: every slice / array / Vec index and range in the same closure is proven in bounds by E-bounds (rules/bounds.py). In a
+    # request handler everything is request- or database-derived, so an unproven site is reported whatever its index derives from.
+    from . import bounds
+    wcl = {b for b in cl if prog.bodies[b].krate.startswith("cascette_")}
+    res, req = bounds.analyse_closure(prog, wcl)
+    tot = 0
+    for bid in sorted(res):
+        for sk in res[bid].sinks:
+            if sk.kind == "overflow" or getattr(sk, "delegated", None):
+                continue
+            tot += 1
+            ctx.check(sk.proven, rule, [bid, "index-in-bounds", sk.kind], "index / range proven in bounds",
+                      "%s: %s at %s is not proven in bounds (%s): a request or database content that makes it false panics the connection task" %
+                      (ctx._stable(bid), sk.what, sk.loc, "; ".join(repr(g) + " <= 0" for g, d in zip(sk.goals, sk.detail) if d is None)[:160] or "length unknown"), sk.loc)
+    ctx.floor(rule, tot, 6, "index / range sites in the server closure")
 
 
 # adaptors that hand a field through unchanged (borrow, clone, default for an absent optional, Display)
